@@ -896,6 +896,15 @@ def analyse(prog, grammar, tier="quick"):
             factq.append({"id": rname, "e": model.rule(rname, True)})
         except Unsupported:
             pass
+    # can the grammar alone (no post-checks) put a control character into the span of these rules?
+    bare = PestModel(grammar, [])
+    ctrl = seq(anystar(), cset([[0, 0x1F]]), anystar())
+    for rname in ("string", "member_name_shorthand"):
+        if rname in grammar.rules:
+            try:
+                factq.append({"id": "ctrl-in:" + rname, "e": and_(bare.rule(rname, True), ctrl)})
+            except Unsupported:
+                pass
     spec["facts"] = factq
     res = run_engine(spec)
     n, bad = self_check(ABNF_PATH, EXAMPLES_PATH)
